@@ -139,6 +139,8 @@ def generate(seed, prop):
         fault_rate = rng.choice([0.15, 0.3, 0.6])
     max_ops = {"C20": 8, "C12": 10}.get(prop, 25)
     n_ops = rng.randint(1, max_ops) if rng.random() < 0.7 else rng.randint(1, 4)
+    if not any(v > 0 for v in w.values()):
+        w["update_peaks"] = 4.0
     names = [k for k in w if w[k] > 0]
     weights = [w[k] for k in names]
     ops = []
